@@ -850,6 +850,8 @@ func (e *SpecEnv) evalCall(x *ECall) SV {
 					return SV{t: app("select", cur, pv.t), typ: mathInt}
 				}
 				return SV{t: app("select", cur, pv.t), typ: types.NewArray(types.Typ[types.Uint8], 0)}
+			case "initguard":
+				return e.extInitGuard() // ext_induct.go: the init$guard flag of the contract's package
 			case "ghostvar":
 				// ghostvar(NAME): current value of an auxiliary integer variable declared with `ghost NAME = INIT`
 				id, ok := x.Args[0].(*EIdent)
@@ -1388,6 +1390,9 @@ func (e *SpecEnv) applyRec(sf *SpecFn, n *SpecEnv, args []SV) SV {
 	if sf.Ret != "" && sf.Ret != "mathint" {
 		ret = n.resolveType(sf.Ret)
 	}
+	if t, ok := recSubst[fc][name]; ok { // ext_induct.go: frame axiom construction replaces the recursive call by a bound variable
+		return SV{t: t, typ: ret}
+	}
 	comps, known := fc.recInfo[name]
 	if !known {
 		if fc.recBusy[name] {
@@ -1434,6 +1439,7 @@ func (e *SpecEnv) applyRec(sf *SpecFn, n *SpecEnv, args []SV) SV {
 			sorts = append(sorts, fc.tc.sortOf(n.resolveType(b.Type)))
 			_ = i
 		}
+		e.extRecLimitBegin(sf, name, sorts, fc.tc.sortOf(ret)) // ext_induct.go: `reclimit`
 		fc.eng.declareUF(fc, name, sorts, fc.tc.sortOf(ret))
 		probe.cur, probe.old = st, st
 		body := probe.eval(sf.Body)
@@ -1446,6 +1452,8 @@ func (e *SpecEnv) applyRec(sf *SpecFn, n *SpecEnv, args []SV) SV {
 		if fa := recFrameAxioms(name, comps, hnames, fc.comps, hdecls, decls, argNames, body.t); fa != "" {
 			fc.ufAxioms[name] += "\n" + fa // ext_recframe.go: stores at allocation roots do not change the value
 		}
+		e.extRecLimitEnd(sf, name, strings.Join(append(hdecls, decls...), " "), call)
+		e.extRecFrame(sf, n, name, comps, fc.tc.sortOf(ret))
 	}
 	var ts []string
 	var hsorts, asorts []string
@@ -1466,6 +1474,9 @@ func (e *SpecEnv) applyRec(sf *SpecFn, n *SpecEnv, args []SV) SV {
 	}, asorts, args)
 	for _, a := range args {
 		ts = append(ts, a.t)
+	}
+	if rn, ok := recRename[fc][name]; ok { // ext_induct.go: inside the defining axiom of a `reclimit`ed function
+		return SV{t: app(rn, ts...), typ: ret}
 	}
 	return SV{t: app(name, ts...), typ: ret}
 }
